@@ -93,7 +93,7 @@ func (c *vRConn) SetWriteDeadline(t time.Time) error { return nil }
 // happens-before analysis: no two conflicting accesses of library code are unordered.
 func VerifC12Query() {
 	v := 54460
-	verifSchedPolicy(vPolicies[verifChoice("policy", 3)], 0)
+	verifSchedPolicy(vPolicies[verifChoice("policy", verifParam("policies", 3))], 0)
 	otel := verifChoice("otel", 2) == 1
 	scenario := verifChoice("scenario", 6)
 	cell, cell2 := verifU64("cell"), verifU64("cell2")
